@@ -26,7 +26,7 @@ type tok struct {
 }
 
 // content atoms (raw, style-independent meaning)
-var atoms15 = []string{"a", "b", "x y", "Q", "'", "'", `"`, `"`, `\`, `\`, `\`, "--", "/*", "*/", "$$", "$t$", "$", ";", "\n", "é", "日本", "__STR_0__", "__STR_1__", "__IDENT_0__", "__FROM_MASK_0__", "FROM x", "E'", "%", "_"}
+var atoms15 = []string{"a", "b", "x y", "Q", "'", "'", `"`, `"`, `\`, `\`, `\`, "--", "/*", "*/", "$$", "$t$", "$", ";", "\n", "é", "日本", "__STR_0__", "__STR_1__", "__IDENT_0__", "__FROM_MASK_0__", "FROM x", "E'", "%", "_", "/", "*", "/ "}
 
 var markers15 = []string{"ATTACH", "DETACH", "COPY", "PRAGMA", "LOAD", "INSTALL", "CALL", "RESET"}
 
